@@ -899,8 +899,10 @@ namespace nmtools::index
             // note that we also explicit using size_t here
             // can't infer type (or using size_type ) :|
             // size_type si = at(shape,i);
-            [[maybe_unused]] size_t si = at(shape,s_i);
             using slice_t = meta::remove_cvref_t<decltype(slice)>;
+            // an ellipsis may stand for zero axes at the end of the slices: then there is no axis s_i to read
+            [[maybe_unused]] size_t si = 0;
+            if constexpr (!is_ellipsis_v<slice_t>) si = at(shape,s_i);
 
             // helper lambda to decompose start stop and step
             [[maybe_unused]] auto decompose = [&](auto slice){
@@ -1055,8 +1057,10 @@ namespace nmtools::index
         meta::template_for<N_SLICES>([&](auto i){
             auto slice = at(slices_pack, i);
             // si may not be used in all constexpr branch
-            [[maybe_unused]] size_t si  = at(shape,s_i);
             using slice_t = meta::remove_cvref_t<decltype(slice)>;
+            // an ellipsis may stand for zero axes at the end of the slices: then there is no axis s_i to read
+            [[maybe_unused]] size_t si = 0;
+            if constexpr (!is_ellipsis_v<slice_t>) si = at(shape,s_i);
             if constexpr (meta::is_index_v<slice_t>) {
                 if constexpr (meta::is_signed_v<slice_t>) {
                     at(res,r_i) = (slice < 0 ? si - abs_(slice) : slice);
